@@ -9,3 +9,4 @@ open OrxPar
 #print axioms C05_no_assert
 #print axioms C05_kernel_step
 #print axioms C05_kernel_log
+#print axioms C05_term_events
